@@ -158,6 +158,9 @@ class ParsersWorld:
                 kw = workload.pick_run_kwargs(ro, self.modes, cur["run"])
             last_kw = kw
             op = {"op": "run", "kw": kw}
+            if ro.random() < 0.12:
+                # the caller scribbles over the result it got (it owns it): later calls must not be affected
+                op["scribble"] = True
             if r < 0.27:
                 op["dump"] = {"dump_path": ro.choice(["schemas", "out/d", "."]),
                               "file_path": ro.choice([None, "some/dir/tables.sql", "a.b.sql"])}
@@ -194,7 +197,7 @@ class ParsersWorld:
                                            "dump_fault_fired": 0, "reruns": 0, "mode_changes": 0,
                                            "after_fault_checks": 0, "stmts": 0, "cancel_in_multi": 0,
                                            "objects": 0, "exc_outcomes": 0, "refs_other_hashseed": 0,
-                                           "global_state_changed": 0, "victims_run": 0, "nodump_with_paths": 0, "from_file_other_process": 0, "reflag_objects": 0, "followup_objects": 0,
+                                           "global_state_changed": 0, "victims_run": 0, "nodump_with_paths": 0, "from_file_other_process": 0, "results_scribbled": 0, "reflag_objects": 0, "followup_objects": 0,
                                            "marathon_runs": 1 if (trace.get("swarm") or {}).get("marathon") else 0},
               "kinds": []}
         chooser = sched.ListChooser([])
@@ -403,6 +406,16 @@ class ParsersWorld:
                                              "hashseeds": [os.environ.get("PYTHONHASHSEED"), str(self.ref_x.hashseed)],
                                              "expected": core.short(expected, 600), "observed": core.short(expected_x, 600),
                                              "diff": core.first_diff(expected, expected_x)})
+            if kind == "run" and op.get("scribble") and held and held[-1][0] == i and not st["violations"]:
+                # the caller modifies the object it was handed, everywhere it can.  A result must not be a window onto
+                # state that later calls read (module constants, parser attributes).  Other held results that share
+                # sub-objects with it are re-baselined, not reported: the property says nothing about two results
+                # being disjoint.
+                _scribble(held[-1][1])
+                held.pop()
+                for h in held:
+                    h[2] = core.digest_of(core.canon(h[1]))
+                stats["results_scribbled"] += 1
             # oracle 2: returned results are never modified
             for (j, val, dg) in held:
                 if core.digest_of(core.canon(val)) != dg:
@@ -839,6 +852,23 @@ class _OrderChooser:
 
     def at_line(self, cur, dp, others, filename=None):
         return cur
+
+
+def _scribble(x, depth=0):
+    """Mutate every mutable container reachable from a returned result (in place)."""
+    if depth > 12:
+        return
+    if isinstance(x, dict):
+        for v in list(x.values()):
+            _scribble(v, depth + 1)
+        x["__caller_scribble__"] = depth
+        for k in list(x)[:2]:
+            if k != "__caller_scribble__" and not isinstance(x[k], (dict, list)):
+                x[k] = "__overwritten_by_caller__"
+    elif isinstance(x, list):
+        for v in x:
+            _scribble(v, depth + 1)
+        x.append("__caller_scribble__")
 
 
 class _Refs:
